@@ -1,0 +1,231 @@
+//go:build verif
+
+package quickfix
+
+// Verification hooks (build tag "verif" only). Nothing in this file is compiled into the
+// default build. It exposes the run loop's own entry points one call at a time, so an
+// external harness can drive a real session synchronously and deterministically, and
+// re-exports a few unexported helpers (stream parser, wire-order field list, time ranges).
+// No engine behaviour is changed: every method only calls existing unexported functions.
+
+import (
+	"bytes"
+	"io"
+	"time"
+
+	"github.com/quickfixgo/quickfix/internal"
+)
+
+// VerifSession wraps a real session built by the real factory.
+type VerifSession struct {
+	s          *session
+	registered bool
+}
+
+// VerifNewSession builds a session through sessionFactory.newSession (settings parsing
+// included). No goroutine is started and the session is not registered.
+func VerifNewSession(id SessionID, sf MessageStoreFactory, ss *SessionSettings, lf LogFactory,
+	app Application, initiator bool) (*VerifSession, error) {
+	s, err := sessionFactory{BuildInitiators: initiator}.newSession(id, sf, ss, lf, app)
+	if err != nil {
+		return nil, err
+	}
+	// The run loop reads sessionEvent; without a run loop the AfterFunc goroutines of
+	// the logon/logout timeouts would block forever, so give them room to complete.
+	s.sessionEvent = make(chan internal.Event, 4096)
+	s.stateTimer = internal.NewEventTimer(func() {})
+	s.peerTimer = internal.NewEventTimer(func() {})
+	return &VerifSession{s: s}, nil
+}
+
+// Register adds the session to the global registry (for SendToTarget).
+func (v *VerifSession) Register() error {
+	if err := registerSession(v.s); err != nil {
+		return err
+	}
+	v.registered = true
+	return nil
+}
+
+// Start is what run() does first.
+func (v *VerifSession) Start() { v.s.Start(v.s) }
+
+// Connect is onAdmin(connect{...}) without a reply channel; returns false if refused.
+func (v *VerifSession) Connect(out chan []byte) bool {
+	errc := make(chan error, 1)
+	in := make(chan fixIn)
+	v.s.onAdmin(connect{messageOut: out, messageIn: in, err: errc})
+	err, ok := <-errc
+	return !(ok && err != nil)
+}
+
+// Incoming dispatches one inbound frame exactly as the run loop would.
+func (v *VerifSession) Incoming(b []byte, recv time.Time) {
+	v.s.Incoming(v.s, fixIn{bytes: bytes.NewBuffer(b), receiveTime: recv})
+}
+
+// Timeout dispatches a timer event: 0 PeerTimeout 1 NeedHeartbeat 2 LogonTimeout 3 LogoutTimeout.
+func (v *VerifSession) Timeout(ev int) { v.s.Timeout(v.s, internal.Event(ev)) }
+
+// TakeMessageEvent is a non-blocking receive on messageEvent.
+func (v *VerifSession) TakeMessageEvent() bool {
+	select {
+	case <-v.s.messageEvent:
+		return true
+	default:
+		return false
+	}
+}
+
+func (v *VerifSession) SendAppMessages() { v.s.SendAppMessages(v.s) }
+func (v *VerifSession) Disconnected()    { v.s.Disconnected(v.s) }
+func (v *VerifSession) Stop()            { v.s.Stop(v.s) }
+
+// Send is queueForSend, the SendToTarget path.
+func (v *VerifSession) Send(m *Message) error { return v.s.queueForSend(m) }
+
+func (v *VerifSession) CheckSessionTime(now time.Time) { v.s.CheckSessionTime(v.s, now) }
+func (v *VerifSession) CheckResetTime(now time.Time)   { v.s.CheckResetTime(v.s, now) }
+
+// DrainEvents is a non-blocking drain of sessionEvent (AfterFunc logon/logout timeouts).
+func (v *VerifSession) DrainEvents() []int {
+	var out []int
+	for {
+		select {
+		case e := <-v.s.sessionEvent:
+			out = append(out, int(e))
+		default:
+			return out
+		}
+	}
+}
+
+// StateName distinguishes e.g. pendingTimeout{resendState} from pendingTimeout{inSession}.
+func (v *VerifSession) StateName() string {
+	return verifStateName(v.s.State)
+}
+
+func verifStateName(st sessionState) string {
+	switch t := st.(type) {
+	case pendingTimeout:
+		return "pending(" + verifStateName(t.sessionState) + ")"
+	case inSession:
+		return "inSession"
+	case resendState:
+		return "resend"
+	case logonState:
+		return "logon"
+	case logoutState:
+		return "logout"
+	case latentState:
+		return "latent"
+	case notSessionTime:
+		return "notSessionTime"
+	case nil:
+		return "nil"
+	}
+	return "other"
+}
+
+// ResendInfo exposes the recovery bookkeeping of a resend state (for diagnostics only).
+func (v *VerifSession) ResendInfo() (inResend bool, stash []int, chunkEnd, rangeEnd int) {
+	st := v.s.State
+	if p, ok := st.(pendingTimeout); ok {
+		st = p.sessionState
+	}
+	if r, ok := st.(resendState); ok {
+		for k := range r.messageStash {
+			stash = append(stash, k)
+		}
+		return true, stash, r.currentResendRangeEnd, r.resendRangeEnd
+	}
+	return false, nil, 0, 0
+}
+
+func (v *VerifSession) IsLoggedOn() bool             { return v.s.IsLoggedOn() }
+func (v *VerifSession) IsConnected() bool            { return v.s.IsConnected() }
+func (v *VerifSession) IsSessionTime() bool          { return v.s.IsSessionTime() }
+func (v *VerifSession) Stopped() bool                { return v.s.Stopped() }
+func (v *VerifSession) Store() MessageStore          { return v.s.store }
+func (v *VerifSession) HeartBtInt() time.Duration    { return v.s.HeartBtInt }
+func (v *VerifSession) ID() SessionID                { return v.s.sessionID }
+func (v *VerifSession) QueuedToSend() int            { return len(v.s.toSend) }
+func (v *VerifSession) StateTimer() interface{}      { return v.s.stateTimer }
+func (v *VerifSession) PeerTimer() interface{}       { return v.s.peerTimer }
+func (v *VerifSession) SessionTime() *VerifTimeRange { return v.s.SessionTime }
+
+// RunLoop is s.run(), for the few real-loop runs only.
+func (v *VerifSession) RunLoop() { v.s.run() }
+
+// ConnectAsync is s.connect, through the admin channel of a running loop.
+func (v *VerifSession) ConnectAsync(in <-chan *bytes.Buffer, out chan []byte) error {
+	fin := make(chan fixIn, 64)
+	go func() {
+		for b := range in {
+			fin <- fixIn{bytes: b, receiveTime: time.Now()}
+		}
+		close(fin)
+	}()
+	return v.s.connect(fin, out)
+}
+
+// StopAsync is s.stop, through the admin channel of a running loop.
+func (v *VerifSession) StopAsync() { v.s.stop() }
+
+// Close stops the timers, unregisters and closes the store.
+func (v *VerifSession) Close() {
+	v.s.stateTimer.Stop()
+	v.s.peerTimer.Stop()
+	if v.registered {
+		_ = UnregisterSession(v.s.sessionID)
+		v.registered = false
+	}
+	if v.s.store != nil {
+		_ = v.s.store.Close()
+	}
+}
+
+// VerifParser wraps the unexported stream parser.
+type VerifParser struct{ p *parser }
+
+func VerifNewParser(r io.Reader) *VerifParser { return &VerifParser{p: newParser(r)} }
+
+func (p *VerifParser) ReadMessage() ([]byte, error) {
+	b, err := p.p.ReadMessage()
+	if b == nil {
+		return nil, err
+	}
+	return b.Bytes(), err
+}
+
+// VerifField is one parsed field in wire order.
+type VerifField struct {
+	Tag   Tag
+	Value []byte
+}
+
+// VerifWireFields returns the parsed field list of a message in wire order.
+func VerifWireFields(m *Message) []VerifField {
+	out := make([]VerifField, 0, len(m.fields))
+	for _, f := range m.fields {
+		out = append(out, VerifField{Tag: f.tag, Value: f.value})
+	}
+	return out
+}
+
+// VerifBodyBytes returns the body byte slice recorded by the parser.
+func VerifBodyBytes(m *Message) []byte { return m.bodyBytes }
+
+// VerifTimeRange makes internal.TimeRange (IsInRange / IsInSameRange) usable from outside.
+type VerifTimeRange = internal.TimeRange
+
+func VerifDailyRange(sh, sm, ss, eh, em, es int, days []time.Weekday, loc *time.Location) (*VerifTimeRange, error) {
+	return internal.NewTimeRangeInLocation(internal.NewTimeOfDay(sh, sm, ss), internal.NewTimeOfDay(eh, em, es), days, loc)
+}
+
+func VerifWeeklyRange(sh, sm, ss, eh, em, es int, sd, ed time.Weekday, loc *time.Location) (*VerifTimeRange, error) {
+	return internal.NewWeekRangeInLocation(internal.NewTimeOfDay(sh, sm, ss), internal.NewTimeOfDay(eh, em, es), sd, ed, loc)
+}
+
+// VerifSetTimerHook forwards the timer observer of package internal.
+func VerifSetTimerHook(f func(timer interface{}, d time.Duration)) { internal.VerifTimerHook = f }
